@@ -34,11 +34,11 @@ def table(name, shape):
     return SArr(shape, lambda *k: f(*[zint(x) for x in k]), "real")
 
 
-def obs_generator(cols_in=2, cols_val=1, keys=("a", "b")):
+def obs_generator(cols_in=2, cols_val=1, keys=("a", "b"), pcols=1):
     ind = z3.Function("indices", z3.IntSort(), z3.IntSort())
     rec = Rec("DataGeneratorObservations", dict(
         key=Key(), obs_batch_size=b, observed_pinn_in=table("pin", (n, cols_in)), observed_values=table("val", (n, cols_val)),
-        observed_eq_params={k: table("obs_" + k, (n, 1)) for k in keys}, sharding_device=None, n=n, curr_idx=idx,
+        observed_eq_params={k: table("obs_" + k, (n, pcols)) for k in keys}, sharding_device=None, n=n, curr_idx=idx,
         indices=SArr((n,), lambda k: ind(zint(k)), "int")))
     return rec, ind
 
@@ -47,12 +47,14 @@ def Inv(i_, b_, n_):
     return z3.Or(i_ == INT32_MAX - b_ - 1, z3.And(i_ >= 0, i_ < n_, i_ % b_ == 0))
 
 
-def obs_alignment(cols_in, cols_val, keys):
-    name = f"C15/DataGeneratorObservations.obs_batch/ensures.same_row_for_input_value_and_parameters[in={cols_in},val={cols_val},keys={'+'.join(keys) or '-'}]"
+def obs_alignment(cols_in, cols_val, keys, pcols=1):
+    """pcols: number of columns of every observed equation-parameter table (a vector-valued parameter per observation)"""
+    name = (f"C15/DataGeneratorObservations.obs_batch/ensures.same_row_for_input_value_and_parameters[in={cols_in},val={cols_val},keys={'+'.join(keys) or '-'}"
+            f"{'' if pcols == 1 else ',parameter_columns=' + str(pcols)}]")
     def run(seed):
         t0 = time.time()
         ex = Executor(SRC)
-        rec, ind = obs_generator(cols_in, cols_val, keys)
+        rec, ind = obs_generator(cols_in, cols_val, keys, pcols)
         outs = [o for o in ex.call_method(rec, "obs_batch") if o.kind == "return"]
         if not outs:
             raise pyvc.Unsupported("obs_batch: no normal return")
@@ -75,7 +77,12 @@ def obs_alignment(cols_in, cols_val, keys):
                      ("keys", z3.BoolVal(sorted(batch["eq_params"].keys()) == sorted(keys))),
                      ("shapes", z3.And(zint(batch["pinn_in"].shape[0]) == b, zint(batch["val"].shape[0]) == b))]
             for k in keys:
-                goals.append((f"parameter_row[{k}]", batch["eq_params"][k].elem(r_, 0) == rec.fields["observed_eq_params"][k].elem(m, 0)))
+                bp = batch["eq_params"][k]
+                goals.append((f"parameter_shape[{k}]", z3.And(z3.BoolVal(len(bp.shape) == 2), zint(bp.shape[0]) == b,
+                                                             zint(bp.shape[1]) == pcols) if len(bp.shape) == 2 else z3.BoolVal(False)))
+                if len(bp.shape) == 2:
+                    for pc_ in range(pcols):
+                        goals.append((f"parameter_row[{k},column={pc_}]", bp.elem(r_, pc_) == rec.fields["observed_eq_params"][k].elem(m, pc_)))
             goals.append(("tables_untouched", z3.BoolVal(new.fields["observed_pinn_in"] is rec.fields["observed_pinn_in"]
                                                          and new.fields["observed_values"] is rec.fields["observed_values"])))
             # canary: value taken from a different row than the input
@@ -155,7 +162,7 @@ def obs_constructor(shape_in, shape_val, int_inputs=False, sharding=False, eq_ke
             if k_ in rec.fields["observed_eq_params"]:
                 goals.append((f"parameter_content[{k_}]", rec.fields["observed_eq_params"][k_].elem(k, 0) == user_eq[k_].elem(k)))
         return finish(name, goals, pre, ex, t0)
-    return FnObligation(name, run, [DG + "DataGeneratorObservations.__post_init__"])
+    return FnObligation(name, run, [DG + "DataGeneratorObservations.__post_init__"], native_fallback=lambda: _safe(native_alignment))
 
 
 def obs_constructor_rejects():
@@ -298,6 +305,25 @@ def native_alignment():
             i, v, a = np.asarray(bt["pinn_in"])[:, 0], np.asarray(bt["val"])[:, 0], np.asarray(bt["eq_params"]["a"])[:, 0]
             if not (np.allclose(v, i + 10) and np.allclose(a, i + 20)):
                 return [f"{nn} observations, batch size {bb}, call {call}: batch rows mix different table rows: inputs {i.tolist()}, values {v.tolist()}, parameter {a.tolist()}"]
+    # a vector-valued observed parameter (two columns per observation)
+    tab2 = np.stack([300.0 + np.arange(nn), 400.0 + np.arange(nn)], axis=1)
+    g = DataGeneratorObservations(jax.random.PRNGKey(4), 3, jnp.arange(nn, dtype=float)[:, None], 10.0 + jnp.arange(nn, dtype=float)[:, None],
+                                  {"D": jnp.asarray(tab2)})
+    for call in range(4):
+        g, bt = g.get_batch()
+        i = np.asarray(bt["pinn_in"])[:, 0].astype(int)
+        d_ = np.asarray(bt["eq_params"]["D"], dtype=float)
+        if d_.shape != (3, 2) or not np.allclose(d_, tab2[i]):
+            return [f"observed parameter with two columns, call {call}: batch rows {i.tolist()} carry parameter values {d_.tolist()} of shape {d_.shape}, "
+                    f"the table rows are {tab2[i].tolist()}"]
+    # a large table (index vectors stored in narrow integer types wrap): the index store is a permutation of 0..n-1
+    for nn_big in (40000, 70000):
+        tbl = jnp.arange(nn_big, dtype=float)[:, None]
+        gb = DataGeneratorObservations(jax.random.PRNGKey(3), nn_big // 4, tbl, tbl + 10.0)
+        ind = np.sort(np.asarray(gb.indices).astype(np.int64))
+        if ind.shape[0] != nn_big or ind[0] != 0 or ind[-1] != nn_big - 1 or not np.array_equal(ind, np.arange(nn_big)):
+            return [f"{nn_big} observations: the index store built by the constructor is not a permutation of 0..{nn_big - 1} "
+                    f"(min {int(ind.min())}, max {int(ind.max())}, {len(np.unique(ind))} distinct values)"]
     bb = 3
     # integer-typed inputs (time-step indices), real-valued measurements; two observed parameters written in non-sorted
     # order; with and without a storage sharding
@@ -377,7 +403,7 @@ def _native_param(user_shape):
 
 
 def obligations(tier):
-    obs = [obs_alignment(2, 1, ("a", "b")), obs_alignment(1, 2, ("a",)), obs_alignment(1, 1, ()), index_invariant(),
+    obs = [obs_alignment(2, 1, ("a", "b")), obs_alignment(1, 2, ("a",)), obs_alignment(1, 1, ()), obs_alignment(1, 1, ("a",), pcols=2), index_invariant(),
            obs_constructor(("n", 2), ("n", 1)), obs_constructor(("n",), ("n",)), obs_constructor_rejects(),
            obs_constructor(("n", 2), ("n", 1), int_inputs=True), obs_constructor(("n",), ("n", 2), int_inputs=True),
            obs_constructor(("n", 1), ("n", 1), sharding=True, eq_keys=("nu", "D")), obs_constructor(("n", 1), ("n", 1), eq_keys=("nu", "D")),
